@@ -665,6 +665,7 @@ func c03StreamBound(w *World, r *Report, rule string) {
 			// an If `a > b` (true edge => error return) whose false edge dominates the write, with a depending on the
 			// chunk just read and b on the partition size
 			found := false
+			lossyAt := ""
 			for _, b := range wc.Blocks {
 				iff, ok := lastInstr(b).(*ssa.If)
 				if !ok {
@@ -697,12 +698,28 @@ func c03StreamBound(w *World, r *Report, rule string) {
 				if !dependsRead || !dependsSize {
 					continue
 				}
+				// the byte total must be compared as it is: a division or shift on that side (comparing in sectors)
+				// rounds down and lets up to a sector of excess through
+				lossy := false
+				for _, bo := range pb.BinOps {
+					if bo.Op == token.QUO || bo.Op == token.SHR || bo.Op == token.REM || bo.Op == token.AND || bo.Op == token.AND_NOT {
+						lossy = true
+					}
+				}
+				if lossy {
+					lossyAt = w.relFile(instrPos(iff))
+					continue
+				}
 				if edgeDominates(b, 1-errIdx, c.Block()) && blockLeadsToErrorReturn(b.Succs[errIdx], 0) {
 					found = true
 				}
 			}
+			why := "the device write is reachable without the (total + chunk > partition size) test: data can be written past the end of the partition"
+			if !found && lossyAt != "" {
+				why = "the only size test before the device write (" + lossyAt + ") compares a rounded-down quantity (the byte total divided, shifted or masked): contents that exceed the partition by less than the rounding unit pass it and their tail is written into whatever follows the partition"
+			}
 			r.Check(found, rule, name, "size test dominates WriteAt #"+ordinal(wc, c), w.relFile(c.Pos()),
-				"running total + chunk > size => error, on every path to the write", "the device write is reachable without the (total + chunk > partition size) test: data can be written past the end of the partition")
+				"running total + chunk > size => error, on every path to the write", why)
 			// offset = Start*lss + total
 			off := argsOf(c)[1]
 			po := w.prov(off, c13Opts)
@@ -925,6 +942,7 @@ func c03SubStorage(w *World, r *Report) {
 func runC13(w *World, r *Report) {
 	c13Width(w, r)
 	c03StreamBound(w, r, "C13-b")
+	c13TotalCountsWrites(w, r)
 	c13Incomplete(w, r)
 	c13EveryChunkHandled(w, r)
 	c13PassThrough(w, r)
@@ -1322,6 +1340,82 @@ func c13Verify(w *World, r *Report) {
 // c13EveryChunkHandled: in WriteContents every chunk obtained from the reader is handled (its count tested
 // against zero / written) before the loop can be left towards a success return: a reader may return data
 // together with io.EOF.
+// c13TotalCountsWrites (C13-b): the running total that WriteContents compares with the partition size and returns is
+// advanced only by bytes that went through the device write: every addition that feeds it either adds the count a
+// WriteAt returned or lies behind (is dominated by) the WriteAt of that chunk.
+func c13TotalCountsWrites(w *World, r *Report) {
+	for _, n := range partitionImpls(w) {
+		wc := w.MethodOf(n, "WriteContents")
+		if wc == nil {
+			continue
+		}
+		name := fnName(wc)
+		writes := calls(wc, false, isWriteAt)
+		// the accumulator: the phi returned as the count on the success path
+		var acc *ssa.Phi
+		for _, ret := range returnsOf(wc) {
+			if classifyReturn(ret) == RetError || len(ret.Results) == 0 {
+				continue
+			}
+			if ph, ok := stripConv(ret.Results[0]).(*ssa.Phi); ok {
+				acc = ph
+			}
+		}
+		if acc == nil || len(writes) == 0 {
+			r.Undecided("C13-b", name, "running total counts written bytes", w.relFile(wc.Pos()), "no phi-carried running total returned on success")
+			continue
+		}
+		// additions feeding the accumulator (through nested phis)
+		seen := map[ssa.Value]bool{}
+		var adds []*ssa.BinOp
+		var walk func(v ssa.Value, d int)
+		walk = func(v ssa.Value, d int) {
+			v = stripConv(v)
+			if seen[v] || d > 10 {
+				return
+			}
+			seen[v] = true
+			switch x := v.(type) {
+			case *ssa.Phi:
+				for _, e := range x.Edges {
+					walk(e, d+1)
+				}
+			case *ssa.BinOp:
+				if x.Op == token.ADD {
+					adds = append(adds, x)
+					walk(x.X, d+1)
+					walk(x.Y, d+1)
+				}
+			}
+		}
+		walk(acc, 0)
+		k := 0
+		for _, a := range adds {
+			// only additions that advance the accumulator itself (acc + x)
+			var inc ssa.Value
+			if _, ok := stripConv(a.X).(*ssa.Phi); ok && seen[stripConv(a.X)] {
+				inc = a.Y
+			} else if _, ok := stripConv(a.Y).(*ssa.Phi); ok && seen[stripConv(a.Y)] {
+				inc = a.X
+			} else {
+				continue
+			}
+			k++
+			good := w.prov(inc, provOpts{}).hasCallNamed("WriteAt")
+			for _, wr := range writes {
+				if wr.Block() == a.Block() || wr.Block().Dominates(a.Block()) {
+					good = true
+				}
+			}
+			r.Check(good, "C13-b", name, fmt.Sprintf("running total advances only by written bytes #%d", k), w.relFile(a.Pos()), "",
+				"the count WriteContents compares with the partition size and returns is advanced on a path that performs no device write (a chunk is counted but skipped): the partition keeps its previous bytes there while the call reports them written")
+		}
+		if k == 0 {
+			r.Undecided("C13-b", name, "running total counts written bytes", w.relFile(wc.Pos()), "no addition advances the running total")
+		}
+	}
+}
+
 func c13EveryChunkHandled(w *World, r *Report) {
 	for _, n := range partitionImpls(w) {
 		wc := w.MethodOf(n, "WriteContents")
